@@ -78,7 +78,8 @@ def invalid_value(rng, vg, fd, valid):
             for tag in ("l", "t", "q", "s", "fs"):
                 if tag in valid and valid[tag]:
                     xs = list(valid[tag])
-                    xs[rng.randrange(len(xs))] = p
+                    # sometimes an ill-typed element that is also unhashable (list / dict)
+                    xs[rng.randrange(len(xs))] = p if rng.random() < 0.75 else rng.choice([{"l": [1]}, {"m": []}, {"l": []}])
                     return "payload-elem", {tag: xs}
             if "m" in valid and valid["m"]:
                 kvs = [list(kv) for kv in valid["m"]]
@@ -131,10 +132,16 @@ def gen_flat(rng, tier, n_classes):
                 kwl = [[k, v] for k, v in kw.items() if k in sub or k in cls["required"] or rng.random() < 0.7]
                 rng.shuffle(kwl)
                 entry = rng.choice(["Deserializer", "deserialize_structure"])
+                # sometimes the class has been used before (a successful construction leaves names in
+                # the inner Field instances), and equal inner declarations are one shared instance
+                pre = [{"op": "construct", "kw": [[k, v] for k, v in base.items()]}] if rng.random() < 0.3 else []
+                share = [names] if rng.random() < 0.3 else []
                 for mode in ("construct", "deser"):
                     for ff in (True, False):
                         cases.append({"suite": "errors", "cls": cls, "kw": kwl, "mode": mode, "ff": ff, "entry": entry,
-                                      "sub": sub, "ways": ways, "re": gen.re_table(cls, kwl)})
+                                      "pre": pre, "share": share,
+                                      "sub": sub, "ways": ways + (["history"] if pre else []),
+                                      "re": gen.re_table(cls, kwl, [[k, v] for k, v in base.items()])})
     return cases
 
 
@@ -333,9 +340,86 @@ def fixed_cases():
     return out
 
 
+def coll_of(kind, item):
+    if kind == "mapVal":
+        return {"k": "mapOf", "key": {"k": "string"}, "val": item}
+    if kind == "mapKey":
+        return {"k": "mapOf", "key": item, "val": {"k": "integer"}}
+    if kind == "deque":
+        return {"k": "seqOf", "seq": "deque", "item": item}
+    return {"k": kind, "item": item}
+
+
+def coll_value(kind, elems):
+    if kind == "mapVal":
+        return {"m": [[f"k{i}", x] for i, x in enumerate(elems)]}
+    if kind == "mapKey":
+        return {"m": [[x, i] for i, x in enumerate(elems)]}
+    return {{"seqOf": "l", "deque": "q", "setOf": "s", "tupleOf": "t"}[kind]: list(elems)}
+
+
+def gen_shared(rng, tier):
+    """directed stream: ONE item Field instance shared by two or three collection fields (a module-level
+    `Pct = Integer(maximum=100)` used in several declarations, typedpy's own EmailAddress in `to` and `cc`),
+    with and without an earlier successful construction / deserialization in the same process, then a bad
+    element (out of bounds, ill-typed, unhashable) in only one of the fields, or in two.
+    Region: the scratch `_name` of shared / previously used inner Field instances and what error paths are
+    built from it."""
+    cases = []
+    vg = gen.ValGen(rng)
+    kinds = ["seqOf", "deque", "setOf", "tupleOf", "mapVal", "mapKey"]
+    reps = 2 if tier == "quick" else 10
+    ci = 0
+    for _ in range(reps):
+        for ik in ("integer", "float", "string", "enumCls", "boolean", "number"):
+            dg = gen.DeclGen(rng, max_depth=1, p_constraint=0.7)
+            item = dg.scalar(ik)
+            goods = [g for g in (vg.valid(item) for _ in range(6)) if g is not gen.NOVALUE]
+            goods = gen.dedup_wire(goods)
+            if not goods:
+                continue
+            hashable_goods = [g for g in goods if not isinstance(g, dict) or "f" in g or "e" in g]
+            bads = [b for _, b in out_of_bound(vg, item)][:3] + [rng.choice(PAYLOADS), None, {"l": [1]}, {"m": []}]
+            ci += 1
+            n = rng.choice([2, 2, 3])
+            names = rng.sample(["to", "cc", "a", "b2", "m_1"], n)
+            fkinds = [rng.choice(kinds) for _ in names]
+            if ik in ("float", "boolean") :
+                fkinds = [k if k != "mapKey" else "mapVal" for k in fkinds]
+            cls = {"k": "struct", "name": f"S{ci}", "required": [], "addl": rng.random() < 0.5,
+                   "fields": [[nm, coll_of(k, item)] for nm, k in zip(names, fkinds)] + [["z", {"k": "integer"}]]}
+            valid_kw = [[nm, coll_value(k, goods[:2] if k not in ("mapKey", "setOf") else hashable_goods[:2])]
+                        for nm, k in zip(names, fkinds)]
+            histories = [[], [{"op": "construct", "kw": valid_kw}],
+                         [{"op": "construct", "kw": list(reversed(valid_kw))}],
+                         [{"op": "deser", "kw": valid_kw}, {"op": "construct", "kw": valid_kw[:1]}]]
+            for pre in histories:
+                for share in ([names], []):
+                    for target in range(len(names)):
+                        bad = rng.choice(bads)
+                        k = fkinds[target]
+                        if k == "mapKey" and (bad is None or isinstance(bad, dict)):
+                            bad = rng.choice(PAYLOADS)
+                        kwl = [list(x) for x in valid_kw]
+                        kwl[target][1] = coll_value(k, [bad] + goods[:1]) if rng.random() < 0.5 else coll_value(k, goods[:1] + [bad])
+                        sub = [names[target]]
+                        if rng.random() < 0.3:
+                            kwl.append(["z", "x"])
+                            sub.append("z")
+                        if rng.random() < 0.3:
+                            kwl = [x for x in kwl if x[0] == names[target] or rng.random() < 0.6]
+                        for mode, entry in (("deser", "Deserializer"), ("deser", "deserialize_structure"), ("construct", None)):
+                            for ff in (True, False):
+                                cases.append({"suite": "errors", "cls": cls, "kw": kwl, "mode": mode, "ff": ff, "entry": entry,
+                                              "share": share, "pre": pre, "sub": sub,
+                                              "ways": ["shared:" + ("1" if share else "0") + ":pre" + str(len(pre)) + ":" + k],
+                                              "re": gen.re_table(cls, kwl, valid_kw)})
+    return cases
+
+
 def gen_cases(rng, tier):
     n = 160 if tier == "quick" else 1400
-    return fixed_cases() + gen_directed(rng, tier) + gen_flat(rng, tier, n) + gen_nested(rng, tier, 60 if tier == "quick" else 500)
+    return fixed_cases() + gen_directed(rng, tier) + gen_shared(rng, tier) + gen_flat(rng, tier, n) + gen_nested(rng, tier, 60 if tier == "quick" else 500)
 
 
 # ------------------------------------------------------------------ documents and lifting
@@ -403,6 +487,53 @@ def info_to_json(x):
     return {"unexpected": repr(x)[:200]}
 
 
+def inner_field_objs(f):
+    items = getattr(f, "items", None)
+    if items is None:
+        return []
+    return list(items) if isinstance(items, (list, tuple)) else [items]
+
+
+def share_inner_fields(cls, groups, ctx):
+    """make the fields of every group use ONE Field instance for their equal inner declarations, as
+    with a module-level `Pct = Integer(maximum=100)` used in `a: Array[Pct]` and `m: Map[String, Pct]`"""
+    for g in groups:
+        canon = {}
+        for n in g:
+            f = getattr(cls, n)
+            items = getattr(f, "items", None)
+            if items is None:
+                continue
+            objs = inner_field_objs(f)
+            repl = []
+            for pos, x in enumerate(objs):
+                # Map keys are shared with Map keys only: one instance as key AND value of the same Map
+                # is a different region (typedpy then stores the value under the key's name too)
+                role = "key" if type(f).__name__ == "Map" and pos == 0 else "elem"
+                key = role + json.dumps(dump.dump_field(x, ctx), sort_keys=True)
+                repl.append(canon.setdefault(key, x))
+            if isinstance(items, (list, tuple)):
+                for i, x in enumerate(repl):
+                    items[i] = x
+            else:
+                f.items = repl[0]
+
+
+def run_history(cls, pre, ctx):
+    """earlier uses of the class in the same process (fail-fast on), before the observed call"""
+    out = []
+    for op in pre:
+        try:
+            if op["op"] == "construct":
+                cls(**{k: dump.load_value(v, ctx) for k, v in op["kw"]})
+            else:
+                Deserializer(cls).deserialize({k: to_doc(v, ctx) for k, v in op["kw"]})
+            out.append(op["op"] + ":ok")
+        except Exception as e:  # noqa
+            out.append(op["op"] + ":" + type(e).__name__)
+    return out
+
+
 def run_impl(case):
     ctx = C.make_ctx()
     decl = case["cls"]
@@ -417,19 +548,29 @@ def run_impl(case):
     cls_actual = C.fix_accepts(dump.dump_class(cls, ctx))
     mode = case["mode"]
     decl_of = dict((n, fd) for n, fd in decl["fields"])
+    share_inner_fields(cls, case.get("share", []), ctx)
+    history = run_history(cls, case.get("pre", []), ctx)
     try:
         if mode == "construct":
             kw = {k: dump.load_value(v, ctx) for k, v in case["kw"]}
             lifted = kw
         else:
             kw = {k: to_doc(v, ctx) for k, v in case["kw"]}
-            lifted = {k: lift(decl_of[k], v) for k, v in kw.items()} if mode == "deser" else {}
+            # a null document value is not passed on at all (the field counts as not supplied)
+            lifted = {k: lift(decl_of[k], v) for k, v in kw.items() if v is not None} if mode == "deser" else {}
     except Exception as e:
         return {"unbuildable": f"value: {type(e).__name__}: {e}"}
     res = {"cls_actual": cls_actual,
            "kw_actual": [[k, C.rename_inline(dump.dump_value(v, ctx), ctx)] for k, v in lifted.items()]}
+    if history:
+        res["history"] = history
     if mode == "deser":
         res["doc_actual"] = [[k, dump.dump_value(v, ctx)] for k, v in kw.items()]
+        # the order construct_fields_map visits the fields, and the scratch `_name` every inner Field
+        # instance carries right now (left there by earlier constructions; inputs of the Lean model)
+        res["order"] = list(cls.get_all_fields_by_name())
+        res["scratch"] = [[n, [getattr(x, "_name", None) for x in inner_field_objs(getattr(cls, n))]]
+                          for n in res["order"] if inner_field_objs(getattr(cls, n))]
     ff = bool(case["ff"])
     Structure.set_fail_fast(ff)
     try:
@@ -525,6 +666,8 @@ def line(case, impl):
          "ff": bool(case["ff"]), "mode": case["mode"], "re": case.get("re", [])}
     if impl.get("doc_actual") is not None:
         l["doc"] = impl["doc_actual"]
+        l["order"] = impl.get("order", [])
+        l["scratch"] = impl.get("scratch", [])
     if impl.get("msg") is not None:
         l["msg"] = impl["msg"]
         # oracle answers for `\w`: the non-ASCII characters of the message that str.isalnum() accepts
@@ -593,6 +736,27 @@ def deser_correspondence(case, impl, model):
                 f"for document {json.dumps(impl.get('doc_actual'), ensure_ascii=False)[:300]}")
     if m and impl.get("raised") is None:
         return f"phase one rejects {m} but deserialization raised nothing"
+    sites = model.get("p1sites", [])
+    raised = impl.get("raised")
+    if not m:
+        # nothing rejected in phase one: the constructor runs on the lifted arguments
+        return construct_correspondence(case, impl, model)
+    if case["ff"]:
+        if raised != sites[0]["cls"]:
+            return f"phase one, fail-fast: model raises {sites[0]['cls']} for field {sites[0]['top']}, real {raised}: {impl.get('msg')!r}"
+    else:
+        if raised != "InvalidStructureErr":
+            return f"phase one, collect-all: real raised {raised}, not InvalidStructureErr: {impl.get('msg')!r}"
+        try:
+            lst = json.loads(impl["msg"])
+        except Exception:
+            lst = None
+        if not isinstance(lst, list) or len(lst) != len(sites):
+            return f"phase one, collect-all: model has {len(sites)} messages ({[x['top'] for x in sites]}), real {impl['msg']!r}"
+    for x in sites:
+        if not x["headOk"]:
+            return (f"phase one: message for field {x['top']} ({x['kind']} site) does not begin with the model's head "
+                    f"{x['head']!r}: {impl.get('msg')!r}; scratch={impl.get('scratch')}")
     return None
 
 
@@ -723,16 +887,49 @@ def oracle(case, impl, model):
     infos = infos_of(helper)
     named = set()
     lost_keys = []
-    # (2) every message begins with a path naming an invalid supplied field
-    for t in texts:
+    # the model's rejection site behind each message: for deserialization's first phase the Lean
+    # model says, per field, whether the text is guaranteed to carry the field's own path (`named`),
+    # an inner Field instance's scratch name (`inner`, Map entries) or nothing (`foreign`, set(values));
+    # the open findings are accepted ONLY at the sites where the model places them
+    p1 = model.get("p1sites", []) if mode == "deser" else []
+    aligned = p1 if (p1 and len(p1) == len(texts)) else None
+    if mode == "construct" or (mode == "deser" and not model.get("phase1")):
+        cs = model.get("sites", [])
+        if len(cs) == len(texts):
+            aligned = [{"top": x["top"], "kind": "named"} for x in cs]
+
+    def own(idx):
+        return [aligned[idx]["top"]] if aligned else invalid
+
+    def site_key(idx, t, what):
+        bare = re.sub(r"^" + re.escape(cls_name) + r"\.", "", t)
+        if aligned is None:
+            return "no-path:other"
+        kind = aligned[idx]["kind"]
+        if kind == "foreign":
+            return "no-path:unhashable:deser-set"
+        if kind == "inner":
+            p = path_of_text(bare)
+            if p is None or p == "None":
+                return "no-path:unnamed-inner-field:deser-collection"
+            return "wrong-field:stale-inner-name:deser-map"
+        # a `named` site (or the constructor): nothing excuses a missing / foreign / other field's path
+        p = path_of_text(bare)
+        fields_ = [n for n, _ in case["cls"]["fields"]]
+        if what == "no-path:other" and p is not None and any(names_field(p, cls_name, n) for n in fields_):
+            return "wrong-field:other"
+        return what
+
+    # (2) every message begins with a path naming ITS invalid supplied field
+    for idx, t in enumerate(texts):
         p = path_of_text(t)
-        hit = [n for n in invalid if p is not None and names_field(p, cls_name, n)]
+        hit = [n for n in own(idx) if n in invalid and p is not None and names_field(p, cls_name, n)]
         if not hit:
-            lost_keys.append((classify_no_path(re.sub(r"^" + re.escape(cls_name) + r"\.", "", t), raised, mode, ff, invalid_kinds, supplied_kinds, impl.get("inner_texts", [])),
-                              f"message does not begin with a path naming an invalid field (invalid={invalid}): {t!r} [{where}]"))
+            lost_keys.append((site_key(idx, t, "no-path:other"),
+                              f"message does not begin with a path naming its invalid field {own(idx) if aligned else invalid} (invalid={invalid}): {t!r} [{where}]"))
     # (3) every ErrorInfo carries such a field and a non-empty problem
     for idx, i in enumerate(infos):
-        hit = [n for n in invalid if names_field(i.get("field"), cls_name, n)]
+        hit = [n for n in (own(idx) if idx < len(texts) else invalid) if n in invalid and names_field(i.get("field"), cls_name, n)]
         t = texts[idx] if idx < len(texts) else msg
         if hit:
             named.update(hit)
@@ -741,7 +938,7 @@ def oracle(case, impl, model):
                 fails.append(("empty-problem", f"ErrorInfo.problem is empty for {t!r} [{where}]"))
         else:
             p = path_of_text(t)
-            if p is not None and any(names_field(p, cls_name, n) for n in invalid):
+            if p is not None and any(names_field(p, cls_name, n) for n in (own(idx) if idx < len(texts) else invalid)):
                 lost_keys.append((classify_lost(t, p),
                                   f"ErrorInfo.field={i.get('field')!r} does not name the invalid field although the message does: {t!r} [{where}]"))
             # else: already reported under (2)
